@@ -224,7 +224,10 @@ pub fn apply(ctx: &Ctx) -> Report {
             wire::term(&original.term),
             ops_wire.join(" ")
         ));
-        keys.push(format!("c18:history:{}", c12::fnv(&format!("{src}{}", ops_wire.join(" ")))));
+        // `spec:`: what is compared — accepted/rejected per argument, parameters left, language, resulting
+        // code — is what `apply_accepts_iff_conforms`, `apply_consumes_first`, `apply_code_is_application`
+        // characterise, so a difference is a concrete history on which the real code breaks the property
+        keys.push(format!("spec:c18:history:{}", c12::fnv(&format!("{src}{}", ops_wire.join(" ")))));
         real.push(format!("{} {} {} {}", outs.join(","), v.parameters.len(), l, wire::term(&v.program.inner().term)));
         rep.nontrivial.insert(c12::fnv(&format!("{src}{}", ops_wire.join(" "))));
         rep.count(&format!("accepted:{}", accepted.len()));
